@@ -29,7 +29,7 @@ RULE = (
     "ordered pair of the 8 frames x every argument form (to_grid none/self/clone/other, 8 shape/dtype forms, "
     "default rounding and decimals=None, points and vectors, matrix and applied forms, *_to_* helpers), every "
     "path up to the tier depth; plus anchors, coords(dim) for every n in [1,4096], coords()/points() forms, "
-    "grid_sample identity for all shapes, Cube maps; layout: every point/vector tensor of every Grid and Cube "
+    "grid_sample identity for all shapes, Cube maps (Grid.cube, Grid.domain, Cube.from_grid with align_corners omitted / None / False / True, the explicit flag selecting the frame); layout: every point/vector tensor of every Grid and Cube "
     "conversion (all axes pairs, one- and two-grid) and every tensor argument of the Grid constructor as transposed / "
     "step-sliced / stride-0 expanded view on a 4-grid menu. distinct outcome = exact bytes of returned matrices / "
     "mapped probe set; non-trivial = the edge's reference map moves the probe set by more than 1e-3"
@@ -1075,11 +1075,18 @@ def check_cube(sink: Sink, pair: Pair):
         if r.ac and r.n.min() < 2:
             sink.undef("cube: zero extent (align_corners=True with a single sample)")
             return
-        makers = [("Grid.cube", lambda g=pair.grids[gi]: g.cube())]
+        # the cube frame of a grid is its CUBE_CORNERS (flag True) or CUBE (flag False) frame; an explicit
+        # align_corners argument of Cube.from_grid selects the frame regardless of the grid's own flag
+        own = CORNERS if r.ac else CUBE
+        makers = [("Grid.cube", lambda g=pair.grids[gi]: g.cube(), own)]
         if gi == 0:
-            makers += [("Cube.from_grid", lambda g=pair.grids[gi]: Cube.from_grid(g)), ("Grid.domain", lambda g=pair.grids[gi]: g.domain())]
+            makers += [("Cube.from_grid", lambda g=pair.grids[gi]: Cube.from_grid(g), own), ("Grid.domain", lambda g=pair.grids[gi]: g.domain(), own),
+                       ("Cube.from_grid[align_corners=None]", lambda g=pair.grids[gi]: Cube.from_grid(g, align_corners=None), own),
+                       ("Cube.from_grid[align_corners=False]", lambda g=pair.grids[gi]: Cube.from_grid(g, align_corners=False), CUBE)]
+            if r.n.min() >= 2:
+                makers += [("Cube.from_grid[align_corners=True]", lambda g=pair.grids[gi]: Cube.from_grid(g, True), CORNERS)]
         made = None
-        for mname, mk in makers:
+        for mname, mk, cax in makers:
             sink.trans()
             st, cu = guarded(mk)
             if st == "raises":
@@ -1087,8 +1094,6 @@ def check_cube(sink: Sink, pair: Pair):
                 continue
             if made is None:
                 made = cu
-            # the cube frame of a grid is its CUBE_CORNERS (flag True) or CUBE (flag False) frame
-            cax = CORNERS if r.ac else CUBE
             x = pair.P[(gi, cax)]
             w = pair.P[(gi, WORLD)]
             t = lambda a: torch.tensor(a, dtype=torch.float32)  # noqa: E731
